@@ -144,7 +144,10 @@ Binary(k, a, b) ==
                     ELSE IF a.t = "list" /\ b.t = "list" THEN Ok(VList(a.s \o b.s)) ELSE Exc("TypeError")
     [] k = "floordiv" -> IF VNumeric(a) /\ VNumeric(b) THEN (IF b.n = 0 THEN Exc("ZeroDivisionError") ELSE Ok(VInt(a.n \div b.n)))
                          ELSE Exc("TypeError")
-    [] k = "lt" -> IF VNumeric(a) /\ VNumeric(b) THEN Ok(VBool(a.n < b.n))
+    \* (two of the harness's objects compare by their attribute and answer with the INTEGERS 0 / 1 - falsy / truthy
+    \*  results that are not the singletons False / True, as numpy scalars give them)
+    [] k = "lt" -> IF a.t = "obj" /\ b.t = "obj" THEN Ok(VInt(IF a.n < b.n THEN 1 ELSE 0))
+                   ELSE IF VNumeric(a) /\ VNumeric(b) THEN Ok(VBool(a.n < b.n))
                    ELSE IF a.t = "list" /\ b.t = "list" THEN ListLess(a.s, b.s) ELSE Exc("TypeError")
     \* the harness's objects are STRICT value objects: comparing one with anything but such an object raises TypeError
     [] k = "eq" -> IF (a.t = "obj") # (b.t = "obj") THEN Exc("TypeError") ELSE Ok(VBool(PyEq(a, b)))
